@@ -182,8 +182,8 @@ pub fn prop() -> Prop {
         describe,
         rule: "small generated games (including players without multi-action infosets) x pairs of profiles (identical; differing in one infoset by 1e-12 or arbitrarily; independent, incl. pure vs pure with disjoint supports) x p in {1e-3, 0.5, 1, 2, 10, 1e3, random}; oracle: each component in [0,1] and not NaN, 0 for coinciding profiles, > 0 when some infoset differs by > 1e-6 (p <= 10), bitwise symmetric, panics exactly for p <= 0 and for another Game object. Non-trivial = a disjoint-support infoset or a player without infosets; distinct by (tree, profiles, p).",
         max_len: 700,
-        cases_quick: 40_000,
-        cases_thorough: 1_000_000,
+        cases_quick: 2_000_000,
+        cases_thorough: 25_000_000,
         assumptions: &["positivity demanded only for differences > 1e-6 and p <= 10 (|diff|^p may underflow otherwise)", "p = +inf and NaN are outside the stated domain (0, inf)"],
         post: None,
         watchdog_s: 60,
